@@ -67,7 +67,25 @@ def check(src, rep):
     def discharge(site: Site, fn, node, facts):
         # ---- DataReadout constructed by the P1 reader: '/' first and '!' present by the collected-lines typestate
         if site.fn == "dlde.DataReadout.__init__" and fn.qual == "dlde.ModeDReader.read" and site.kind in ("raise", "subscript"):
-            return "collected-lines typestate: non-empty, first kept line admitted under the '/' test, emitted only after keeping a line admitted under the '!' test" if p1_lines_typestate else False
+            if not p1_lines_typestate:
+                return False
+            if site.kind == "raise":
+                # only the two preconditions the typestate establishes: first byte is the start character, an end character exists
+                init = M.funcs.get("dlde.DataReadout.__init__")
+                cond = None
+                if init is not None:
+                    parents = {c: p for p in ast.walk(init.node) for c in ast.iter_child_nodes(p)}
+                    for r in ast.walk(init.node):
+                        if isinstance(r, ast.Raise) and r.lineno == site.line:
+                            cur = r
+                            while cur in parents and not isinstance(parents[cur], ast.If):
+                                cur = parents[cur]
+                            if cur in parents:
+                                cond = norm(parents[cur].test)
+                okc = cond is not None and (re.fullmatch(r"self\.\w+\[0\]!=START_CHARACTER_HEX", cond) or re.fullmatch(r"self\.\w+==-1", cond))
+                if not okc:
+                    return False
+            return "collected-lines typestate: non-empty, first kept line admitted under the '/' test, emitted only after keeping a line admitted under the '!' test"
         if site.kind != "subscript" or not isinstance(node, ast.Subscript) or site.fn != fn.qual:
             return False
         recv = carrier(norm(node.value))
